@@ -1,12 +1,85 @@
 import GridVerif.Model.Proto
 import GridVerif.Model.Elem
+import GridVerif.Model.RTransform
+import GridVerif.Gen.RTransform
+import GridVerif.Model.Transform1D
 
+/-
+  Driver ops of property C04: the model `Model/Transform1D.lean` at `K = Float`, the transform
+  object being the generated definitions of `Gen/RTransform.lean`.
+
+    C04.transform <inv 0|1> <Class> <trim 0|1> <n> p₁ … pₙ <tfLo> <tfHi> <hasDomain 0|1> <gLo> <gHi> <pts> <wts>
+        `tf.transform_1d_grid(OneDGrid(pts, wts, domain))`, `tf = Class(p…)` or `InverseRTransform(Class(p…))`;
+        `tfLo tfHi` = `tf.domain` (may be infinite)
+    C04.onedgrid <hasDomain 0|1> <lo> <hi> <pts> <wts>
+        the `OneDGrid` constructor alone
+
+  Answers: `ok <pts> <wts> <hasDomain> <lo> <hi>` | `type-error` | `value-error` | `zero-division-error`.
+-/
 namespace GridVerif.Driver.C04
-open GridVerif.Proto
+open GridVerif.Proto GridVerif.Transform1D
+open GridVerif.Gen.RTransform (opsOf raisesOf wrapInverseRTransform raisesInverseRTransform BaseTransform)
 
-/-- Line-protocol handler of property C04: `C04.<op> args…` ↦ one answer line
-(`none` = malformed, answered `bad-op`). -/
+def pBool : String → Option Bool
+  | "0" => some false
+  | "1" => some true
+  | _ => none
+
+def errTag : Err → String
+  | .typeError => "type-error"
+  | .valueError => "value-error"
+  | .zeroDivisionError => "zero-division-error"
+
+def showGrid (g : Grid1D Float) : String :=
+  let d := match g.domain with
+    | none => "0 0 0"
+    | some (lo, hi) => "1 " ++ sFloat lo ++ " " ++ sFloat hi
+  "ok " ++ sFloats g.pts ++ " " ++ sFloats g.wts ++ " " ++ d
+
+def answer : Except Err (Grid1D Float) → String
+  | .ok g => showGrid g
+  | .error e => errTag e
+
+/-- The transform object seen by `transform_1d_grid`. -/
+def mkTf (inv : Bool) (cls : String) (ps : List Float) (trim : Bool) (lo hi : Float) : Option (Tf Float) := do
+  let f ← opsOf cls ps trim
+  let sizeRaises := fun (n : Nat) =>
+    raisesOf cls (if inv then "inverse" else "transform") ps trim (Float.ofNat n) 0.0 == some true
+  if inv then
+    let g := wrapInverseRTransform f
+    pure { transform := g.transform, inverse := g.inverse, deriv := g.deriv, deriv2 := g.deriv2, deriv3 := g.deriv3,
+           domLo := some lo, domHi := some hi, sizeRaises := sizeRaises,
+           derivRaises := fun x => raisesInverseRTransform f "deriv" x == some true }
+  else
+    pure { transform := f.transform, inverse := f.inverse, deriv := f.deriv, deriv2 := f.deriv2, deriv3 := f.deriv3,
+           domLo := some lo, domHi := some hi, sizeRaises := sizeRaises }
+
+def pDomain (has lo hi : String) : Option (Option (Float × Float)) := do
+  let has ← pBool has
+  let lo ← pFloat lo
+  let hi ← pFloat hi
+  pure (if has then some (lo, hi) else none)
+
 def handle : List String → Option String
+  | "C04.transform" :: inv :: cls :: trim :: rest => do
+    let inv ← pBool inv
+    let trim ← pBool trim
+    let (ps, tl) ← pVec pFloat rest
+    let tfLo :: tfHi :: has :: gLo :: gHi :: tl := tl | none
+    let tfLo ← pFloat tfLo
+    let tfHi ← pFloat tfHi
+    let dom ← pDomain has gLo gHi
+    let (pts, tl) ← pVec pFloat tl
+    let (wts, tl) ← pVec pFloat tl
+    if tl ≠ [] then none else
+    let tf ← mkTf inv cls ps trim tfLo tfHi
+    pure (answer (transform1dGrid tf { pts := pts, wts := wts, domain := dom }))
+  | "C04.onedgrid" :: has :: lo :: hi :: rest => do
+    let dom ← pDomain has lo hi
+    let (pts, tl) ← pVec pFloat rest
+    let (wts, tl) ← pVec pFloat tl
+    if tl ≠ [] then none else
+    pure (answer (oneDGridNew pts wts dom))
   | _ => none
 
 end GridVerif.Driver.C04
